@@ -26,6 +26,9 @@ pub enum Val {
     Rec(Vec<(String, Val)>),
     /// 0: 1 / 0, 1: 0 / 0, 2: -1 / 0 - values JSON cannot spell (the declared key must still be there)
     NonFinite(u8),
+    /// `#key` and `inputs.key` read inside functions that are defined at top level and called
+    /// from inside a function whose parameter is called `inputs`: both are the merged input
+    Shadowed(String),
 }
 
 #[derive(Clone, Debug, Serialize, Deserialize)]
@@ -73,6 +76,7 @@ fn val_src(v: &Val) -> String {
         Val::List(v) => format!("[{}]", v.iter().map(val_src).collect::<Vec<_>>().join(", ")),
         Val::Rec(v) => format!("{{{}}}", v.iter().map(|(k, x)| format!("{}: {}", k, val_src(x))).collect::<Vec<_>>().join(", ")),
         Val::NonFinite(k) => ["(1 / 0)", "(0 / 0)", "(-1 / 0)"][*k as usize % 3].to_string(),
+        Val::Shadowed(k) => format!("((fh, fi) => ((inputs) => [fh(), fi()])({{{}: \"shadow\"}}))(() => #{}, () => inputs.{})", k, k, k),
     }
 }
 
@@ -109,6 +113,10 @@ impl Model {
             }
             Val::List(v) => v.iter().map(|x| self.eval(x)).collect::<Result<Vec<_>, _>>().map(MV::List),
             Val::NonFinite(k) => Ok(num([f64::INFINITY, f64::NAN, f64::NEG_INFINITY][*k as usize % 3])),
+            Val::Shadowed(k) => {
+                let v = self.inputs.iter().find(|(k2, _)| k2 == k).map(|(_, v)| v.clone()).unwrap_or(MV::Null);
+                Ok(MV::List(vec![v.clone(), v]))
+            }
             Val::Rec(v) => {
                 let mut out: Vec<(String, MV)> = Vec::new();
                 for (k, x) in v {
@@ -358,6 +366,8 @@ fn val(t: &mut Tape, bound: &[String], depth: usize) -> Val {
         3 | 4 => {
             if t.chance(1, 12) {
                 Val::NonFinite(t.pick(3) as u8)
+            } else if t.chance(1, 8) {
+                Val::Shadowed(KEYS[t.pick(KEYS.len())].into())
             } else {
                 Val::Lit(num(t.pick(10) as f64))
             }
@@ -412,6 +422,22 @@ fn case(tape: &[u16]) -> Case {
             inputs.push(Input { stdin: false, text: ["{\"a\": ", "nope", "{'a': 1}", ""][t.pick(4)].into(), valid: None });
         } else {
             let v = input_value(&mut t);
+            inputs.push(Input { stdin: false, text: json::write(&v, t.pick(2) as u8), valid: Some(v) });
+        }
+    }
+    // a later source that sets a key of an earlier one to null (null overrides like any value)
+    if t.chance(1, 3) {
+        let earlier: Vec<String> = inputs
+            .iter()
+            .filter_map(|i| match &i.valid {
+                Some(MV::Rec(f)) => Some(f.iter().filter(|(_, v)| !matches!(v, MV::Null)).map(|(k, _)| k.clone()).collect::<Vec<_>>()),
+                _ => None,
+            })
+            .flatten()
+            .collect();
+        if !earlier.is_empty() {
+            let key = earlier[t.pick(earlier.len())].clone();
+            let v = MV::Rec(vec![(key, MV::Null), ("zz".into(), num(1.0))]);
             inputs.push(Input { stdin: false, text: json::write(&v, t.pick(2) as u8), valid: Some(v) });
         }
     }
